@@ -289,3 +289,7 @@ def run(R, tier, configs=("dflt",)):
         R.violation("R08.4", "bool:delegate", "the boolean conversion does not hand numbers to exactly one integer conversion: %s" % sorted(delegates))
     casts = [st["rv"]["kind"] for m in b.all_mirs() for bi in m.live_blocks() for st in m.blocks[bi]["stmts"] if st["k"] == "assign" and st["rv"]["k"] == "cast" and st["rv"]["kind"] in ("FloatToInt", "FloatToFloat", "IntToInt")]
     R.check(not casts, "R08.4", "bool:no-cast", "no truncating cast in the boolean conversion", "boolean conversion contains a %s cast (truncation instead of rounding)" % casts[:1], where=b.span)
+
+    # ---- R08.6 typed echo tables: floats (answered as bit patterns), booleans and their accept lists, end to end --------------------
+    from . import echotable as ET
+    ET.check(R, "R08.6", "floats", tier, "`*F32?` / `*F64?` / `*BOOL?` through Node::run on the echo witness: decimal literals around the largest and smallest values of each width, halfway cases, negative zero, overflow to infinity, the keywords in short and long form and look-alikes, ON / OFF in any case, numbers that round to zero or not (incl. beyond every integer), every other element type refused", 100)
